@@ -163,6 +163,25 @@ Section Protocol.
                    (upd (g_rep g) (l_rep q) (mkR (r_applied rs) (r_st rs) (l_id q :: r_pending rs)))
                    (l1 ++ l2) (g_ldone g)).
 
+  (* t_apply as a function (the next entry of the log, if any) and its n-fold iteration *)
+  Definition apply1 (g : gstate) (r : nat) : gstate :=
+    match nth_error (g_log g) (r_applied (g_rep g r)) with
+    | Some c =>
+        let rs := g_rep g r in
+        let e := c_ent c in
+        let sr := apply_impl r (e_ts e) (r_st rs) (e_op e) in
+        let triggered := existsb (Nat.eqb (e_id e)) (r_pending rs) in
+        mkG (N.succ (g_clock g))
+            (if triggered then set_ret (e_id e) (g_clock g, snd sr) (g_hist g) else g_hist g)
+            (g_inflight g) (g_log g)
+            (upd (g_rep g) r (mkR (S (r_applied rs)) (fst sr) (remove_id (e_id e) (r_pending rs))))
+            (g_wait g) (g_ldone g)
+    | None => g
+    end.
+
+  Fixpoint applyn (n : nat) (g : gstate) (r : nat) : gstate :=
+    match n with O => g | S m => applyn m (apply1 g r) r end.
+
   Inductive reachable : gstate -> Prop :=
   | reach0 : reachable g0
   | reachS : forall g g', reachable g -> pstep g g' -> reachable g'.
